@@ -30,6 +30,7 @@ const (
 	BWriteBack
 	BTriggerOn
 	BClose
+	BCloseFwd // closes the channel, then forwards the event (h_life only: not a behaviour of the Coq dispatch model)
 )
 
 // panic value kinds
@@ -237,6 +238,13 @@ func (p *Probe) on(kind int, ctx netty.HandlerContext, arg interface{}) {
 		p.Vals.Closes = append(p.Vals.Closes, e)
 		p.Vals.mu.Unlock()
 		ctx.Close(e)
+	case BCloseFwd:
+		e := &IDErr{1000 + b.ID}
+		p.Vals.mu.Lock()
+		p.Vals.Closes = append(p.Vals.Closes, e)
+		p.Vals.mu.Unlock()
+		ctx.Close(e)
+		forward()
 	}
 }
 
